@@ -1111,7 +1111,6 @@ cleanup:
 static LY_ERR
 lys_compile_pattern_chblocks_xmlschema2perl(const struct ly_ctx *ctx, const char *pattern, char **regex)
 {
-#define URANGE_LEN 19
     char *ublock2urange[][2] = {
         {"BasicLatin", "[\\x{0000}-\\x{007F}]"},
         {"Latin-1Supplement", "[\\x{0080}-\\x{00FF}]"},
@@ -1196,11 +1195,11 @@ lys_compile_pattern_chblocks_xmlschema2perl(const struct ly_ctx *ctx, const char
         {"SmallFormVariants", "[\\x{FE50}-\\x{FE6F}]"},
         {"ArabicPresentationForms-B", "[\\x{FE70}-\\x{FEFE}]"},
         {"HalfwidthandFullwidthForms", "[\\x{FF00}-\\x{FFEF}]"},
-        {"Specials", "[\\x{FEFF}|\\x{FFF0}-\\x{FFFD}]"},
+        {"Specials", "[\\x{FEFF}\\x{FFF0}-\\x{FFFD}]"},
         {NULL, NULL}
     };
 
-    size_t idx, idx2, start, end, brack;
+    size_t idx, idx2, start, end, brack, urange_len;
     char *perl_regex, *ptr;
     ly_bool escaped;
 
@@ -1217,13 +1216,6 @@ lys_compile_pattern_chblocks_xmlschema2perl(const struct ly_ctx *ctx, const char
         }
         end = (ptr - perl_regex) + 1;
 
-        /* need more space */
-        if (end - start < URANGE_LEN) {
-            perl_regex = ly_realloc(perl_regex, strlen(perl_regex) + (URANGE_LEN - (end - start)) + 1);
-            *regex = perl_regex;
-            LY_CHECK_ERR_RET(!perl_regex, LOGMEM(ctx), LY_EMEM);
-        }
-
         /* find our range */
         for (idx = 0; ublock2urange[idx][0]; ++idx) {
             if ((strlen(ublock2urange[idx][0]) == end - start - ly_strlen_const("\\p{Is}")) &&
@@ -1235,6 +1227,14 @@ lys_compile_pattern_chblocks_xmlschema2perl(const struct ly_ctx *ctx, const char
         if (!ublock2urange[idx][0]) {
             LOGVAL(ctx, LY_VCODE_INREGEXP, pattern, perl_regex + start + 5, "unknown block name");
             return LY_EVALID;
+        }
+        urange_len = strlen(ublock2urange[idx][1]);
+
+        /* need more space */
+        if (end - start < urange_len) {
+            perl_regex = ly_realloc(perl_regex, strlen(perl_regex) + (urange_len - (end - start)) + 1);
+            *regex = perl_regex;
+            LY_CHECK_ERR_RET(!perl_regex, LOGMEM(ctx), LY_EMEM);
         }
 
         /* make the space in the string and replace the block (but we cannot include brackets if it was already enclosed in them) */
@@ -1252,11 +1252,11 @@ lys_compile_pattern_chblocks_xmlschema2perl(const struct ly_ctx *ctx, const char
         }
         if (brack) {
             /* skip brackets */
-            memmove(perl_regex + start + (URANGE_LEN - 2), perl_regex + end, strlen(perl_regex + end) + 1);
-            memcpy(perl_regex + start, ublock2urange[idx][1] + 1, URANGE_LEN - 2);
+            memmove(perl_regex + start + (urange_len - 2), perl_regex + end, strlen(perl_regex + end) + 1);
+            memcpy(perl_regex + start, ublock2urange[idx][1] + 1, urange_len - 2);
         } else {
-            memmove(perl_regex + start + URANGE_LEN, perl_regex + end, strlen(perl_regex + end) + 1);
-            memcpy(perl_regex + start, ublock2urange[idx][1], URANGE_LEN);
+            memmove(perl_regex + start + urange_len, perl_regex + end, strlen(perl_regex + end) + 1);
+            memcpy(perl_regex + start, ublock2urange[idx][1], urange_len);
         }
     }
 
@@ -1388,8 +1388,6 @@ lys_compile_type_pattern_check(const struct ly_ctx *ctx, const char *pattern, pc
     }
 
     return LY_SUCCESS;
-
-#undef URANGE_LEN
 }
 
 LY_ERR
